@@ -80,6 +80,36 @@ theorem output_is_the_valid_frames (crc : Bytes → Nat) (segs : List Seg) (tail
       simp only [List.map_cons, Seg.expected, List.filter_cons, List.filterMap_cons]
       simpa using ih'
 
+/-- On a clean stream (valid frames only, back to back) the filter is the identity. -/
+theorem clean_stream_unchanged (crc : Bytes → Nat) (fs : List Bytes) (hv : ∀ f ∈ fs, ValidFrame crc f) :
+    rtcmBytes (segment crc (In.ofBytes fs.flatten)) = fs.flatten := by
+  rw [C03.back_to_back_frames crc fs hv]
+  unfold rtcmBytes
+  have : (fs.map (fun f => ({ typ := typeOf f, raw := f } : Msg))).filter (fun m => m.typ != -1) =
+      fs.map (fun f => ({ typ := typeOf f, raw := f } : Msg)) := by
+    apply List.filter_eq_self.mpr
+    intro m hm
+    rcases List.mem_map.mp hm with ⟨f, _, rfl⟩
+    simp only [typeOf, bne_iff_ne, ne_eq]; omega
+  rw [this, List.map_map]
+  congr 1
+  exact List.map_id' _ |>.symm ▸ rfl
+
+/-- Filtering is idempotent: running the filter's output through the filter again changes nothing. -/
+theorem filter_idempotent (crc : Bytes → Nat) (segs : List Seg) (tail : Bytes)
+    (hwf : ∀ s ∈ segs, s.WF crc) (htail : TruncTail crc tail) :
+    rtcmBytes (segment crc (In.ofBytes (rtcmBytes (segment crc (In.ofBytes (streamOf segs tail)))))) =
+      rtcmBytes (segment crc (In.ofBytes (streamOf segs tail))) := by
+  rw [output_is_the_valid_frames crc segs tail hwf htail]
+  apply clean_stream_unchanged
+  intro f hf
+  rcases List.mem_filterMap.mp hf with ⟨s, hs, hsf⟩
+  have hw := normalise_wf crc _ segs rfl hwf s hs
+  cases s with
+  | frame g => simp at hsf; subst hsf; exact hw
+  | junk j => simp at hsf
+  | corrupt g => simp at hsf
+
 /-! Non-vacuity (tests). -/
 example : rtcmBytes [{ typ := -1, raw := [1, 2] }, { typ := 1005, raw := [0xD3, 0] }, { typ := -1, raw := [9] }] = [0xD3, 0] := by
   decide
